@@ -237,7 +237,9 @@ PROPERTIES = {
                  "covering the streams still queued, so a close() issued while an earlier reset is in flight is not stranded. "
                  "RTCSctpTransport._set_state: when the association is established every negotiated channel is open and the others "
                  "are as they were; when it is closed every registered channel is closed and unregistered; other states leave "
-                 "the channels alone. _data_channel_send adds exactly the queued byte count to bufferedAmount (flush takes the "
+                 "the channels alone. _data_channel_add_negotiated registers a negotiated channel under its id (ValueError exactly "
+                 "if the id is taken) and opens it at once exactly when the association is established. "
+                 "_data_channel_send adds exactly the queued byte count to bufferedAmount (flush takes the "
                  "same count off). Reduced: id reuse after close, the accounting over whole histories of "
                  "send/flush, and close() end to end over both peers are not under contract.",
         "note": "emit() is modelled as appending the event name to a ghost list; the event-log postconditions assume listeners "
